@@ -14,7 +14,7 @@ import sys
 from mc import history, impl, runner
 
 from statham.schema.constants import NotPassed
-from statham.schema.elements import Boolean, Element, Integer, Null, Object, String
+from statham.schema.elements import AnyOf, Array, Boolean, Element, Integer, Null, Object, String
 from statham.schema.elements.meta import ObjectClassDict, ObjectMeta
 from statham.schema.property import Property
 from statham.serializers import serialize_json, serialize_python
@@ -39,7 +39,7 @@ PROBES = [
     NP, None, 1, "a", [], {}, {"a": 1}, {"a": True}, {"a": 1, "c": 1}, {"a": 1, "k": False}, {"a": "s"}, {"a": 1, "b": "s"}, {"a": 1, "b": 2}, {"b": "s"}, {"a": 1, "c": True}, {"a": 1, "c": 1}, {"a": "s", "c": True},
     {"a": 1, "k": 0}, {"a": 1, "k": 0, "c": False}, {"a": 1, "z1": 5}, {"a": 1, "z1": "s"}, {"a": 1, "zz": None}, {"a": 1, "b": "s", "c": True, "d": 4},
     {"a": 1, "class": 3}, {"a": 1, "class": "x"}, {"a": 1, "ab": 1}, {"a": 1, "b": "s", "k": 1, "z1": 2, "q": 3}, {"a": True}, {"k": 0}, {"a": 1, "d": 1}, {"a": 1, "d": 1, "e": 2},
-    {"a": 2, "b": "dd"}, {"a": 1, "b": None},
+    {"a": 2, "b": "dd"}, {"a": 1, "b": None}, {"a": 1, "x y": "s"}, {"a": 1, "x y": 5}, {"a": 1, "x_y": 5},
 ]
 
 KWMENU = {
@@ -57,7 +57,7 @@ KWMENU = {
 }
 KWLIST = sorted(KWMENU)
 
-PARENT_PROPS = [("a", "Integer()", True, None), ("b", "String(default='d')", False, None), ("m", "Detail", False, None)]
+PARENT_PROPS = [("a", "Integer()", True, None), ("b", "String(default='d')", False, None), ("m", "Detail", False, None), ("n1", "Integer(default=1)", False, None), ("x_y", "String(default='d')", False, "x y")]
 MOVES = {
     "none": [],
     "add": [("c", "Boolean()", True, None)],
@@ -66,11 +66,16 @@ MOVES = {
     "override_required": [("b", "String()", True, None)],
     # the parent's model-valued property is replaced: the model it referred to is reachable through the parent only
     "override_model": [("m", "Null()", False, None)],
+    # overrides that are structurally equal to what they replace, yet not the same thing: a twin model under another name,
+    # a default of another numeric type
+    "override_twin": [("m", "DetailTwin", False, None), ("b", "String(default='d')", False, None), ("n1", "Integer(default=1.0)", False, None)],
 }
 ELEMS = {
     "Integer()": lambda: Integer(), "String()": lambda: String(), "String(default='d')": lambda: String(default="d"),
     "Boolean()": lambda: Boolean(), "Integer(default=1)": lambda: Integer(default=1), "Null()": lambda: Null(),
     "Detail": lambda: Object.inline("Detail", properties={"n": Property(Integer(), required=True)}),
+    "DetailTwin": lambda: Object.inline("DetailTwin", properties={"n": Property(Integer(), required=True)}),
+    "Integer(default=1.0)": lambda: Integer(default=1.0),
 }
 
 
@@ -204,6 +209,10 @@ def check_pair(st, pchoice, cchoice, rank, only=None):
                     if not (gchild == child) or gparent is None or not (gparent == parent) or not issubclass(gchild, gparent):
                         ok = False
                         st.violation("child-differs-from-flat:python", "%s: executing serialize_python(child) does not give an equal child below an equal parent" % (label,), {**label, "module": text[:1200]}, rank=rank)
+                    elif json.dumps(runner.jsonable(serialize_json(gchild)), sort_keys=True) != json.dumps(runner.jsonable(cj), sort_keys=True):
+                        # equality of classes ignores names and the numeric type of literals; the documents do not
+                        ok = False
+                        st.violation("child-differs-from-flat:python-json", "%s: the child obtained from serialize_python serializes to %s, the original child to %s" % (label, json.dumps(runner.jsonable(serialize_json(gchild)), sort_keys=True)[:300], json.dumps(runner.jsonable(cj), sort_keys=True)[:300]), {**label, "module": text[:1200]}, rank=rank)
                     else:
                         gv = vector(gchild)
                         if [k for k, _ in gv] != [k for k, _ in fv]:
@@ -212,8 +221,18 @@ def check_pair(st, pchoice, cchoice, rank, only=None):
                 except Exception as exc:
                     ok = False
                     st.violation("child-python-module-broken:%s" % type(exc).__name__, "%s: %r" % (label, exc), label, rank=rank)
+            used_as_parent = False
             for v, (kind, res) in zip(PROBES, craw):
                 if kind == impl.ACCEPT and isinstance(type(res), ObjectMeta):
+                    if isinstance(res, parent) and not used_as_parent:
+                        used_as_parent = True
+                        # ... and usable wherever an instance of the parent is expected (first accepted instance of each child)
+                        for plabel, pel, wrapv, unwrap in (("parent", parent, res, lambda r: r), ("Array(parent)", Array(parent), [res], lambda r: r[0]), ("AnyOf(Null, parent)", AnyOf(Null(), parent), res, lambda r: r)):
+                            pk, pr = impl.do_call(pel, wrapv, copy_value=False)
+                            if pk != impl.ACCEPT or unwrap(pr) is not res:
+                                ok = False
+                                st.violation("child-instance-refused-by-parent", "%s: a child instance passed to %s gives %s" % (label, plabel, pk), {**label, "value": v, "where": plabel}, rank=rank)
+                                break
                     if not isinstance(res, parent) or not isinstance(res, base):
                         ok = False
                         st.violation("instance-not-of-parent", "%s: child instance %r is not an instance of the parent" % (label, res), {**label, "value": v}, rank=rank)
